@@ -1,8 +1,6 @@
-\* WorkTreeConf, repaired variant; the check generates the same configuration with the variant
-\* (FixDelete / FixPatch) that the code under test implements and dumps the state graph for replay.
 SPECIFICATION Spec
 CONSTANTS
-  TreeSet <- TreesMid
+  TreeSet <- TreesDang
   Ops <- OpsAll
   MaxLen = 2
   Prots <- ProtsDefault
